@@ -32,6 +32,8 @@ Record hep_shapes (raw mangle filter : chains) : Prop := {
   sh_raw_in : hep_disp_ok raw CH_FROM_HEP CH_FS_IN = true;
   sh_raw_out : hep_disp_ok raw CH_TO_HEP CH_FS_OUT = true;
   sh_mangle_in : hep_disp_ok mangle CH_FROM_HEP CH_FS_IN = true;
+  sh_mangle_out : hep_disp_ok mangle CH_TO_HEP CH_FS_OUT = true;
+  sh_mangle_dscp : exists d, lookup mangle CH_EGRESS_DSCP = Some d /\ noop_chain d = true;
   sh_filter_in : hep_disp_ok filter CH_FROM_HEP CH_FS_IN = true;
   sh_filter_out : hep_disp_ok filter CH_TO_HEP CH_FS_OUT = true
 }.
@@ -41,9 +43,9 @@ Theorem failsafe_accept_all_paths : forall c raw mangle filter e p,
   (forall q m, e_other e (2 * O_DST_LOCAL) (set_mark q m) = e_other e (2 * O_DST_LOCAL) q) ->
   installed c raw mangle filter -> hep_shapes raw mangle filter ->
   pk_ver p = c_ver c ->
-  fs_in_ok c raw mangle filter e p = true /\ fs_out_ok c raw filter e p = true.
+  fs_in_ok c raw mangle filter e p = true /\ fs_out_ok c raw mangle filter e p = true.
 Proof.
-  intros c raw mangle filter e p Hc Hwg Hlocal [Hr Hm Hf] [S1 S2 S3 S4 S5] Hv. split.
+  intros c raw mangle filter e p Hc Hwg Hlocal [Hr Hm Hf] [S1 S2 S3 S3o [dscp [Hdl Hdn]] S4 S5] Hv. split.
   - unfold fs_in_ok. destruct (_ && _) eqn:Econd; [|reflexivity].
     rewrite !andb_true_iff, !negb_true_iff in Econd. destruct Econd as [[[E1 E2] E3] E4].
     assert (Hp : I_in c e p) by (unfold I_in; repeat split; assumption).
@@ -60,13 +62,16 @@ Proof.
   - unfold fs_out_ok. destruct (_ && _) eqn:Econd; [|reflexivity].
     rewrite !andb_true_iff, !negb_true_iff in Econd. destruct Econd as [[E1 E2] E3].
     assert (Hp : I_out c p) by (unfold I_out; repeat split; assumption).
-    rewrite !andb_true_iff. split.
+    rewrite !andb_true_iff. split; [split|].
     + destruct (disp_ok_lookup _ _ _ S2) as [d Hd].
       apply (hook_not_dropped raw e (I_out c) (raw_output c)); [apply (Hr (CH_OUTPUT, _)); cbn; tauto| |exact Hp].
       intro n. apply (fs_out_raw_output c raw e n d); [apply (Hr (CH_FS_OUT, _)); cbn; tauto|exact Hd|exact S2].
     + destruct (disp_ok_lookup _ _ _ S5) as [d Hd].
       apply (hook_not_dropped filter e (I_out c) (filter_output c)); [apply (Hf (CH_OUTPUT, _)); cbn; tauto| |exact Hp].
       intro n. apply (fs_out_filter_output c filter e Hc n d); [apply (Hf (CH_FS_OUT, _)); cbn; tauto|exact Hd|exact S5].
+    + destruct (disp_ok_lookup _ _ _ S3o) as [d Hd].
+      apply (hook_not_dropped mangle e (I_out c) (mangle_postrouting c)); [apply (Hm (CH_POSTROUTING, _)); cbn; tauto| |exact Hp].
+      intro n. apply (fs_out_mangle_postrouting c mangle e n d dscp); [apply (Hm (CH_FS_OUT, _)); cbn; tauto|exact Hd|exact S3o|exact Hdl|exact Hdn].
 Qed.
 
 (* responses on the untracked path: the raw table sees them before conntrack, whatever their conntrack state *)
